@@ -98,10 +98,10 @@ type Decl struct {
 }
 
 type If struct {
-	Cond  Expr
-	Then  []Stmt
-	Elifs []Elif
-	Else  []Stmt // nil = no else
+	Cond    Expr
+	Then    []Stmt
+	Elifs   []Elif
+	Else    []Stmt // nil = no else
 	HasElse bool
 }
 type Elif struct {
